@@ -19,7 +19,7 @@ func init() {
 		}
 		c := &tctx{p: p}
 		norm := func(s string) string { return strings.Join(strings.Fields(s), " ") }
-		fields := []string{"lastSyncedWALOffset", "syncedToWALEnd", "syncedSinceCheckpoint"}
+		fields := []string{"lastSyncedWALOffset", "syncedToWALEnd", "syncedSinceCheckpoint", "checkpointUnresolved"}
 		whole := map[string]bool{"db.syncState": true, "exec.state": true, "*state": true}
 		interesting := func(lhs string) bool {
 			if strings.Contains(lhs, "syncDiag") || strings.HasPrefix(lhs, "s.") || strings.HasPrefix(lhs, "result.") || strings.HasPrefix(lhs, "diag.") {
